@@ -22,6 +22,9 @@ pub struct Finding {
     /// tags are matched against *minimised* violations only
     #[serde(default)]
     pub requires_tags: Vec<String>,
+    /// if present, *every* diff line kept in the violation must match it
+    #[serde(default)]
+    pub all_lines_regex: Option<String>,
 }
 
 #[derive(Serialize, Deserialize, Clone, Debug, Default)]
@@ -33,7 +36,7 @@ pub struct FindingsFile {
 }
 
 pub struct Findings {
-    pub list: Vec<(Finding, regex::Regex)>,
+    pub list: Vec<(Finding, regex::Regex, Option<regex::Regex>)>,
 }
 
 pub fn findings_path() -> String {
@@ -51,13 +54,17 @@ impl Findings {
         let mut list = Vec::new();
         for x in f.findings {
             let re = regex::Regex::new(&x.detail_regex).map_err(|e| format!("{path}: {}: {e}", x.id))?;
-            list.push((x, re));
+            let all = match &x.all_lines_regex {
+                Some(r) => Some(regex::Regex::new(r).map_err(|e| format!("{path}: {}: {e}", x.id))?),
+                None => None,
+            };
+            list.push((x, re, all));
         }
         Ok(Findings { list })
     }
 
     pub fn matches(&self, prop: &str, v: &Violation, minimised: bool) -> Option<&Finding> {
-        for (f, re) in &self.list {
+        for (f, re, all) in &self.list {
             if f.property != prop || f.oracle != v.oracle {
                 continue;
             }
@@ -74,11 +81,20 @@ impl Findings {
                 continue;
             }
             let mut hit = re.is_match(&v.detail);
+            let mut all_ok = true;
             for l in &v.diff {
                 let line = format!("{}@{} expected={} actual={}", l.facet, l.at, l.expected, l.actual);
                 if re.is_match(&line) {
                     hit = true;
                 }
+                if let Some(a) = all {
+                    if !a.is_match(&line) {
+                        all_ok = false;
+                    }
+                }
+            }
+            if !all_ok {
+                continue;
             }
             if hit {
                 return Some(f);
